@@ -242,8 +242,10 @@ def run_cbmc(gb, unwind=None, unwindset=None, flags=(), timeout=300, trace=False
     if checks == "none":
         cmd.append("--no-standard-checks")
     elif checks == "full":
+        # (no --conversion-check: a negative value converted to an unsigned type is defined behaviour,
+        # and the library does it on purpose, e.g. NA = -1 stored in unsigned table fields)
         cmd += ["--signed-overflow-check", "--undefined-shift-check", "--pointer-overflow-check",
-                "--conversion-check", "--div-by-zero-check"]
+                "--div-by-zero-check"]
     elif checks == "default":
         pass
     if unwindset:
